@@ -35,6 +35,35 @@ CHECKS = {
              'keywords must be resolved to the declared spelling.  Decides that no code path can create or address a '
              'second cell for another spelling, not whole write histories.',
         note=TRUST + 'the assumption that only the three dunder methods, MetaClass.new and the loader write instance dictionaries.'),
+    'C11': dict(
+        cat='other', sec='DESIGN.md 2/C11',
+        technique='finite truth tables by abstract interpretation of the check functions and mains (static)',
+        text='The violation predicate of check_link_integrity is executed abstractly for all 12 combinations of '
+             '(partner count 0/1/>=2, conditional, many) and compared with the specification; the same is done for '
+             'the association filter and sum, is_consistent, the null predicate of the uniqueness check (over value '
+             'and type-name spellings), the subtype check and the result-summing part of both command line mains '
+             '(all -r/-k combinations); the duplicate map is checked structurally.  Decides that the predicates and '
+             'sums are the specified ones for every model; it does not compute counts of a concrete model.',
+        note=TRUST + 'the abstraction n in {0,1,>=2} (the code compares len() only with constants <= 2, checked).'),
+    'C12': dict(
+        cat='other', sec='DESIGN.md 2/C12',
+        technique='dominator analysis + effect scan + call-graph exception classification + guard analysis (static)',
+        text='In ModelLoader.input every store on the loader is dominated by the successful return of the parse '
+             'call; no p_*/t_* action stores on the loader; only __init__/input write the statement list; every '
+             'explicit raise reachable from input/build_metamodel (call graph incl. ply actions) is ParsingException '
+             'or a MetaException subclass; every partial converter (int, float, uuid.UUID) applied to statement text '
+             'is inside a try that maps ValueError to the documented rejection or is dominated by a lexical test; '
+             'thorough adds the exact ambiguity analysis of every token regex (no exponential backtracking).',
+        note=TRUST + 'ply reports errors only through t_error/p_error. Value-dependent implicit built-in errors are not decided.'),
+    'C19': dict(
+        cat='other', sec='DESIGN.md 2/C19',
+        technique='abstract interpretation of default_value over the type alphabet + path/slot rules on new() and the generators (static)',
+        text='default_value is executed abstractly for every type name in both letter cases with and without an '
+             'owning metamodel and compared with the table of the property; MetaClass.new must run defaults, '
+             'positional, keywords in that order with the defaults skipping exactly referential attributes; '
+             'IdGenerator.peek is a pure read, next returns the saved value and re-reads once, the IntegerGenerator '
+             'sequence is evaluated symbolically to 1,2,3,4, every MetaModel creates its own generator.',
+        note=TRUST + 'uuid4 randomness (never 0, never repeating) is probabilistic and not decided.'),
 }
 
 NOT_APPLICABLE = {
